@@ -153,6 +153,35 @@ func init() {
 			}
 			mon.Tag("reloaded-with-personal")
 		}
+		// history independence: an instance that has already answered searches and then receives the same content again through
+		// UpdateDatabase (same size, other order) must answer like an instance built from that content directly - whatever it
+		// keeps between searches (an index, match targets for the typo fallback, per-command flags) must follow the content
+		if len(prev)%3 == 0 && len(cp) >= 2 {
+			func() {
+				defer func() { recover() }()
+				hist := database.NewCachedDatabase(&database.Database{Commands: c03Clone(cur.DB.Commands)})
+				hist.Database.SearchUniversal(cur.Query, cur.Opts)
+				fz := cur.Opts
+				fz.UseFuzzy = true
+				hist.Database.SearchUniversal(misspellFirst(cur.Query), fz)
+				rev := c03Clone(cur.DB.Commands)
+				for i, j := 0, len(rev)-1; i < j; i, j = i+1, j-1 {
+					rev[i], rev[j] = rev[j], rev[i]
+				}
+				hist.UpdateDatabase(c03Clone(rev))
+				direct := &database.Database{Commands: c03Clone(rev)}
+				for _, rq := range [][2]interface{}{{cur.Query, cur.Opts}, {misspellFirst(cur.Query), fz}} {
+					q, o := rq[0].(string), rq[1].(database.SearchOptions)
+					a, b := hist.Database.SearchUniversal(q, o), direct.SearchUniversal(q, o)
+					if !sameAnswer(hist.Database, a, direct, b) {
+						mon.Hit("C02", "reload-changes-answer", map[string]interface{}{"query": q, "entry": "UpdateDatabase with the same commands in reverse order, compared with a database built from that list",
+							"after_update": answerIDs(hist.Database, a), "built_directly": answerIDs(direct, b)})
+						return
+					}
+				}
+				mon.Tag("same-content-after-update")
+			}()
+		}
 		mon.Tag("repeated")
 	})
 
@@ -403,6 +432,15 @@ func joinInts(xs []int) string {
 		out[i] = strconv.Itoa(x)
 	}
 	return "[" + strings.Join(out, " ") + "]"
+}
+
+// misspellFirst drops the second letter of the first word (a typo that no index term matches but the fallback does)
+func misspellFirst(q string) string {
+	w := strings.Fields(q)
+	if len(w) == 0 || len(w[0]) < 4 {
+		return q + "x"
+	}
+	return w[0][:1] + w[0][2:]
 }
 
 func eqStrings(a, b []string) bool {
